@@ -15,7 +15,7 @@ import (
 
 // AttrVal describes a value passed to WriteAttribute.
 type AttrVal struct {
-	Kind string `json:"kind"` // i8 i16 i32 i64 u8 u16 u32 u64 f32 f64 str []i32 []i64 []f32 []f64 | invalid: nil empty int bool []i8 struct
+	Kind string `json:"kind"`        // i8 i16 i32 i64 u8 u16 u32 u64 f32 f64 str []i32 []i64 []f32 []f64 | invalid: nil empty int bool []i8 struct
 	N    int    `json:"n,omitempty"` // string length / slice length
 	Seed int    `json:"seed,omitempty"`
 }
@@ -163,21 +163,21 @@ func (a AttrVal) Go() (any, *MAttr) {
 // ---- ops -------------------------------------------------------------------------------------------
 
 type Op struct {
-	K      string   `json:"k"` // group dataset write writeraw resize attr delattr hard soft ext reopen close
-	Path   string   `json:"path,omitempty"`
-	D      *DSpec   `json:"d,omitempty"`
-	Seed   int      `json:"seed,omitempty"`
-	Mode   int      `json:"mode,omitempty"` // value mode for write
-	Name   string   `json:"name,omitempty"`
-	A      *AttrVal `json:"a,omitempty"`
-	Dims   []uint64 `json:"dims,omitempty"`
-	Target string   `json:"target,omitempty"`
-	File   string   `json:"file,omitempty"`
-	Links  [][2]string `json:"links,omitempty"` // densegroup: link name -> target path
-	Alias  string      `json:"alias,omitempty"` // dataset: pass the very same dims/chunk slices as the earlier dataset at this path
-	Delta  int         `json:"delta,omitempty"` // attrfit: the string value is sized so that the object's header message area becomes 255+Delta bytes
-	Short  int      `json:"short,omitempty"` // write: deliberately wrong element count (+/-)
-	BadTy  bool     `json:"bad_ty,omitempty"` // write: deliberately wrong Go type
+	K      string      `json:"k"` // group dataset write writeraw resize attr delattr hard soft ext reopen close
+	Path   string      `json:"path,omitempty"`
+	D      *DSpec      `json:"d,omitempty"`
+	Seed   int         `json:"seed,omitempty"`
+	Mode   int         `json:"mode,omitempty"` // value mode for write
+	Name   string      `json:"name,omitempty"`
+	A      *AttrVal    `json:"a,omitempty"`
+	Dims   []uint64    `json:"dims,omitempty"`
+	Target string      `json:"target,omitempty"`
+	File   string      `json:"file,omitempty"`
+	Links  [][2]string `json:"links,omitempty"`  // densegroup: link name -> target path
+	Alias  string      `json:"alias,omitempty"`  // dataset: pass the very same dims/chunk slices as the earlier dataset at this path
+	Delta  int         `json:"delta,omitempty"`  // attrfit: the string value is sized so that the object's header message area becomes 255+Delta bytes
+	Short  int         `json:"short,omitempty"`  // write: deliberately wrong element count (+/-)
+	BadTy  bool        `json:"bad_ty,omitempty"` // write: deliberately wrong Go type
 }
 
 type Case struct {
@@ -331,17 +331,19 @@ type Step struct {
 }
 
 type Exec struct {
-	File   string
-	SB     int
-	FW     *hdf5.FileWriter
-	M      *Model
-	DS     map[int]*hdf5.DatasetWriter // by object id (current session)
-	GW     map[int]*hdf5.GroupWriter
-	Steps  []Step
-	Opts   []interface{} // extra CreateForWrite options (rebalancing etc.)
+	File     string
+	SB       int
+	FW       *hdf5.FileWriter
+	M        *Model
+	DS       map[int]*hdf5.DatasetWriter // by object id (current session)
+	GW       map[int]*hdf5.GroupWriter
+	Steps    []Step
+	Opts     []interface{} // extra CreateForWrite options (rebalancing etc.)
 	Reopened bool
-	closed bool
-	specs  map[string]*DSpec // dataset specs as passed to the library (for slice aliasing between datasets)
+	// NoRebalance: name-index rebalancing is switched off in every session (creation option, toggle after a reopen)
+	NoRebalance bool
+	closed      bool
+	specs       map[string]*DSpec // dataset specs as passed to the library (for slice aliasing between datasets)
 }
 
 func NewExec(file string, sb int, opts ...interface{}) (*Exec, error) {
@@ -716,6 +718,9 @@ func (e *Exec) Apply(op Op) (st Step) {
 			return
 		}
 		e.FW = fw
+		if e.NoRebalance {
+			fw.DisableRebalancing()
+		}
 		e.DS = map[int]*hdf5.DatasetWriter{}
 		e.GW = map[int]*hdf5.GroupWriter{}
 		e.Reopened = true
